@@ -166,7 +166,9 @@ func Dense(subs []RSub, n int) []Trace {
 			}
 			tr.P = append(tr.P, pts[1:]...)
 		}
-		if len(tr.P) >= 2 {
+		// a subpath whose whole extent is below the documented zero (1e-10) counts as a
+		// zero-length request: it may vanish
+		if len(tr.P) >= 2 && tr.Length() > ZeroEps {
 			out = append(out, tr)
 		}
 	}
@@ -301,4 +303,29 @@ func CompareDirected(req, real []Trace, tol float64) (msg string, worst float64)
 		}
 	}
 	return "", worst
+}
+
+// CenterForm returns the centre parameterisation of an arc segment (centre, start angle, sweep
+// angle, corrected radii).
+func (s RSeg) CenterForm() (c Pt, th0, dth, rx, ry float64) {
+	if s.Center {
+		return s.C, s.Th0, s.Dth, s.Rx, s.Ry
+	}
+	return arcCenter(s.P0, s.Rx, s.Ry, s.Phi, s.Large, s.Sweep, s.P1)
+}
+
+// Resample returns k+1 points at equal fractions of the trace's length (nil for a trace
+// without length).
+func Resample(t Trace, k int) []Pt {
+	cum := t.cum()
+	l := cum[len(cum)-1]
+	if l == 0 {
+		return nil
+	}
+	out := make([]Pt, k+1)
+	h := -1
+	for i := 0; i <= k; i++ {
+		out[i] = pointAt(t.P, cum, l*float64(i)/float64(k), &h)
+	}
+	return out
 }
